@@ -47,6 +47,7 @@ class Prop:
     def judge(self, o, impl, model):
         if impl == 'abort': return ('fail', 'implementation process died (abort / stack overflow)')
         if impl == 'timeout': return ('fail', 'implementation did not finish within the time limit (hang / time not proportional to the input)')
+        if impl == 'bad-clone': return ('fail', 'a copy of the decoded value made by clone / clone_from differs from it, or != is not the negation of ==')
         why = self.impl_pred(o, impl)
         if why: return ('fail', why)
         if model is None: return None
